@@ -69,7 +69,49 @@ def _foreign_outer():
     return Object.inline("C03ForeignOuter", properties={"inner": Property(_foreign())})
 
 
+def _swap_literal(x):
+    """The same literal with booleans and the numbers Python equates with them exchanged."""
+    if x is True:
+        return 1
+    if x is False:
+        return 0
+    if isinstance(x, int) and x in (0, 1):
+        return bool(x)
+    if isinstance(x, float) and x in (0.0, 1.0):
+        return bool(x)
+    if isinstance(x, list):
+        return [_swap_literal(i) for i in x]
+    if isinstance(x, dict):
+        return {k: _swap_literal(v) for k, v in x.items()}
+    return x
+
+
+def lookalike(element):
+    """A deep copy whose literal keywords are swapped as above; None when that changes nothing."""
+    import copy
+
+    from statham.schema.constants import NotPassed
+
+    el = copy.deepcopy(element)
+    changed = False
+    for node in [el] + list(get_children(el)):
+        if isinstance(node, ObjectMeta):
+            continue
+        for attr in ("const", "enum", "default"):
+            old = getattr(node, attr, NotPassed())
+            if isinstance(old, NotPassed):
+                continue
+            new = _swap_literal(old)
+            if json.dumps(runner.jsonable(new), sort_keys=True) != json.dumps(runner.jsonable(old), sort_keys=True):
+                setattr(node, attr, new)
+                changed = True
+    return el if changed else None
+
+
 EXTRA_TREES = [
+    ("Array(Element(const=1))", lambda: Array(Element(const=1))),
+    ("Element(properties p: enum[0,'a'], q: const [True])", lambda: Element(properties={"p": Property(Element(enum=[0, "a"])), "q": Property(Element(const=[True, {"k": 1.0}]))})),
+    ("AnyOf(Integer(const=0), Null())", lambda: AnyOf(Integer(const=0), Null())),
     ("Element(enum=[])", lambda: Element(enum=[])),
     ("Array(Element(enum=[]))", lambda: Array(Element(enum=[], default=1))),
 ]
@@ -103,6 +145,10 @@ def definition_menu(tree_factory, rich=True):
     if subs:
         # an equal-but-not-identical copy, built from a second fresh tree
         menu.append(("equal-copy", lambda t: ((t,), {"copy": nth_sub(tree_factory(), 0)})))
+    for n in subs[:4]:
+        if nth_sub(t0, n) is not None and lookalike(nth_sub(t0, n)) is not None:
+            # a definition that differs from a sub-element only by True/1, False/0 inside a literal: NOT equal, never a stand-in
+            menu.append(("lookalike%d" % n, lambda t, n=n: ((t,), {"near": lookalike(nth_sub(t, n))})))
     menu.append(("unrelated", lambda t: ((t,), {"unrel": String(minLength=99), "unrel2": Integer(const=True)})))
     # a class that is reachable only through the caller-supplied definitions
     menu.append(("foreign-class", lambda t: ((t,), {"foreign": Array(_foreign())})))
